@@ -27,11 +27,13 @@ PROPS = {
         "lean": ["C16"],
         "required": ["C16.c16_retry_same_token", "C16.c16_inflight_distinct_reachable", "C16.c16_token_belongs_to_hash",
                      "C16.c16_hash_order_independent", "C16.c16_hash_input_determines_tags", "C16.c16_eviction_witness"],
-        "rule": "three generators: (a) GenerateKey/PutBack histories on the real SimpleIdempotentKeyGenerator (caps 1-4 and 500, 1-5 hashes, "
+        "rule": "four generators: (a) GenerateKey/PutBack histories on the real SimpleIdempotentKeyGenerator (caps 1-4 and 500, 1-5 hashes, "
                 "15% malformed stream with wrong-hash / double / foreign put-backs), tokens canonicalised by first appearance; (b) the real "
                 "Finish/EFLO builders called 6x each with a recording generator on a base parameter set and variants (tag permutation, every "
                 "significant field changed), hashes canonicalised by first appearance, observed tag order compared; (c) fail/retry flows through "
-                "Finish + the real generator. non-trivial = history with at least one token reuse / builder case with >= 2 tags / flow with a failure; "
+                "Finish + the real generator; (d) 150 / 2500 fail/retry histories through the REAL OpenAPI wrappers CreateNetworkInterface, AssignPrivateIPAddress2, AssignIpv6Addresses2 and CreateElasticNetworkInterfaceV2 over the real SDK clients "
+                "whose HTTP transport is the harness (answers: success, HTTP 400 server error, EFLO HTTP 200 with a non-zero business code): the ClientToken read off the wire is compared with the model's flow, monitors: a retry after a failed call "
+                "carries another token, the token on the wire is not the one the generator issued, one call sends two tokens. Every builder case also checks, model-independently, that requests differing in what is sent never hash alike and equal requests hash alike. non-trivial = history with at least one token reuse / builder case with >= 2 tags / flow with a failure; "
                 "distinct = distinct op sequence.",
         "technique": "Lean 4 invariants by induction over all issue/roll-back histories (LRU residency, token uniqueness, provenance), sort-based order-independence lemma; differential correspondence + Go monitors",
         "level_text": "Theorems over all histories of GenerateKey/PutBack (every interleaving, since each call is atomic under the mutex): retry draws the put-back token "
@@ -39,10 +41,10 @@ PROPS = {
                       "hash input is independent of tag iteration order. Model tied to token.go/options.go by differential runs on the real generator and builders.",
         "level_note": "Trusted: Lean kernel; Model/Token.lean hand-written (k8s.io/utils/lru modelled as an MRU-first list); uuid.NewString freshness and MD5 collision-freeness are assumptions; "
                       "the retry theorem is conditional on fewer than cap other operations in between (bounded LRU, default 500; witness c16_eviction_witness) - the listed property text has no such bound, "
-                      "see known finding; OpenAPI wrappers (ecs.go) calling rollBackFunc on error are exercised only through Finish+rollback in the harness, not through the SDK.",
+                      "see known finding; of the OpenAPI wrappers the four that create interfaces / assign addresses on the controllers' paths are exercised through the SDK (scripted transport, one attempt per call: the wrappers' internal back-off loop re-sends the same request object); the v1 variants AssignPrivateIPAddress / AssignIpv6Addresses and AssignLeniPrivateIPAddress2 are not.",
         "assumptions": ["uuid.NewString never repeats", "MD5 of the JSON-serialised request is collision-free on distinct requests",
                         "call sites invoke the roll-back closure at most once, with the token they were given"],
-        "trusted_base": ["Model/Token.lean (hand-written)"],
+        "trusted_base": ["Model/Token.lean (hand-written)", "alibaba-cloud-sdk-go request signing / response decoding beneath the scripted transport"],
         "design_ref": "DESIGN.md §4 C16",
     },
     "C17": {
